@@ -251,6 +251,54 @@ def same_counts(a, b, keys=("bins", "shape", "freq", "err2", "missed", "under", 
     return None
 
 
+# ====================================================================== projection chains (kind "chain")
+# the coordinate every axis of the N-d classes holds (rho = distance from the z axis, r3 = distance from the origin)
+SEM = {"SphericalHistogram": ["r3", "theta", "phi"], "CylindricalHistogram": ["rho", "phi", "z"], "PolarHistogram": ["rho", "phi"],
+       "SphericalSurfaceHistogram": ["theta", "phi"], "CylindricalSurfaceHistogram": ["phi", "z"]}
+# kept coordinates -> (the special type that bins by exactly these coordinates, columns of the Cartesian points it takes)
+MATCH = {("r3",): ("RadialHistogram", 3), ("rho",): ("RadialHistogram", 2), ("phi",): ("AzimuthalHistogram", 2),
+         ("rho", "phi"): ("PolarHistogram", 2), ("theta", "phi"): ("SphericalSurfaceHistogram", 3),
+         ("phi", "z"): ("CylindricalSurfaceHistogram", 3)}
+# phi alone out of a spherical / spherical-surface histogram: the unchanged library gives a plain Histogram1D (its azimuthal
+# class takes 2-D points, these classes 3-D ones); either is accepted
+PHI_OPTIONAL = ("SphericalHistogram", "SphericalSurfaceHistogram")
+PLAIN = {1: "Histogram1D", 2: "Histogram2D"}
+DEFAULT_NAMES = {"SphericalHistogram": ["r", "theta", "phi"], "CylindricalHistogram": ["rho", "phi", "z"], "PolarHistogram": ["r", "phi"],
+                 "SphericalSurfaceHistogram": ["theta", "phi"], "CylindricalSurfaceHistogram": ["phi", "z"]}
+NAME_VOCAB = ["r", "rho", "phi", "theta", "z", "x", "y"]
+NAME_LABELS = ["distance", "bearing", "height", "a", "b", "c", "R", "Theta", "Phi", "polar angle", "first"]
+
+
+def pick_names(rng, defaults, n):
+    """n different axis labels: the usual names of the coordinates in another order, coordinate names of other classes, or
+    free labels"""
+    r = rng.random()
+    if r < 0.3 and n > 1:
+        names = list(defaults)
+        while names == list(defaults):
+            rng.shuffle(names)
+        return names
+    if r < 0.6:
+        return rng.sample(NAME_VOCAB, n)
+    return rng.sample(NAME_LABELS, n)
+
+
+def sem_coord(kind, p):
+    """independent restatement: one true coordinate of a Cartesian point"""
+    rho = math.hypot(p[0], p[1])
+    if kind == "rho":
+        return rho
+    if kind == "phi":
+        return math.atan2(p[1], p[0]) % TWO_PI
+    if kind == "z":
+        return p[2]
+    if kind == "theta":
+        return math.atan2(rho, p[2]) % TWO_PI
+    if kind == "r3":
+        return math.hypot(rho, p[2])
+    raise KeyError(kind)
+
+
 def rnd_data(rng, shape):
     if not shape:
         return round(rng.uniform(0.1, 2.0), 3)
@@ -259,7 +307,7 @@ def rnd_data(rng, shape):
 
 class C15:
     ID = "C15"
-    N_QUICK = 520
+    N_QUICK = 590      # 520 + the share of the chain stream (every 8th case)
     N_THOROUGH = 12000
     N_SEARCH = 400
     RULE = ("the six transformed classes (+ cylinder surface) with irregular bins in their own coordinates (full or partial "
@@ -275,8 +323,16 @@ class C15:
             "(each of fill, fill_n, find_bin, transform; for N-d classes the first three also with transformed=True; the facade "
             "of the class 2-4 times) with a wrong number of columns (the neighbours of the right number three times as likely), a "
             "scalar, a 3-D array or superfluous ydata / zdata: refused and the histogram unchanged. kind radius: radius get / "
-            "set (class and facade keyword) leaves bins, contents and find_bin alone. non-trivial = points in at least two "
-            "different bins (special, facade), at least one invalid call (baddims), a non-empty histogram (radius); "
+            "set (class and facade keyword) leaves bins, contents and find_bin alone. kind chain (every 8th case): an N-d "
+            "transformed histogram (class + fill_n or facade; default axis names, axis_names= of the constructor, names set "
+            "afterwards: the usual names in another order, coordinate names of other classes, free labels) and the whole tree "
+            "of its projections down to 1-D, every subset of every node selected by index and by name (pairs also mixed / in "
+            "the other order), 2-D results renamed before they are projected further or not: the type of every projection is "
+            "the one matching the coordinates kept (r -> radial, phi -> azimuthal, (r, phi) -> polar, (theta, phi) -> spherical "
+            "surface, (phi, z) -> cylinder surface with the outer rho edge as radius; other subsets and projections of plain "
+            "histograms plain), its bins and contents / errors2 the marginal, and find_bin of Cartesian points on it gives the "
+            "bin of the kept true coordinates. non-trivial = points in at least two "
+            "different bins (special, facade, chain), at least one invalid call (baddims), a non-empty histogram (radius); "
             "distinct = case hash")
     ASSUMPTIONS = ["libm hypot / atan2 / cos are accurate to a few ulps; transformed coordinates are compared within 4 ulps, "
                    "bins exactly on the implementation's own coordinates"]
@@ -285,6 +341,8 @@ class C15:
     def gen_case(self, rng, k, tier):
         if k % 13 == 6:
             return self.gen_f32(rng)
+        if k % 8 == 3:
+            return self.gen_chain(rng)
         r = rng.random()
         if r < 0.45:
             return self.gen_special(rng)
@@ -977,6 +1035,205 @@ class C15:
                 fails.append(f"radius_changes_find_bin: point {(case['points'] + case['points2'])[j]} is found in {o[a][j]} ({a}), without a radius in {o['ref_find'][j]}")
         return fails[:6]
 
+    # ================================================================== kind "chain": projections of projections, by index and by name
+    def gen_chain(self, rng):
+        """a filled N-d transformed histogram (default axis names, names given to the constructor, renamed through the setter)
+        and the whole tree of its projections down to 1-D: every proper subset of the axes of every node, once selected by
+        index and once by name (two axes also mixed / in the other order); 2-D results may be renamed before they are
+        projected further"""
+        root = rng.choice(["SphericalHistogram"] * 3 + ["CylindricalHistogram"] * 4
+                          + ["PolarHistogram", "SphericalSurfaceHistogram", "CylindricalSurfaceHistogram"])
+        nd = len(SEM[root])
+        dim = SRC_DIM[root][0]
+        full = rng.random() < 0.6
+        axes = [[float(x) for x in axis_edges(rng, kd, full)] for kd in KIND[root]]
+        mode = rng.choice(["default", "default", "ctor", "setter", "setter", "ctor+setter"])
+        build = "class" if "ctor" in mode else rng.choice(["class", "facade"])
+        names0 = pick_names(rng, DEFAULT_NAMES[root], nd) if "ctor" in mode else None
+        names1 = pick_names(rng, DEFAULT_NAMES[root], nd) if "setter" in mode else None
+        n = rng.choice([4, 8, 12])
+        pts = points(rng, dim, n)
+        ws = [rng.choice([1, 2, 0.5]) for _ in range(n)] if rng.random() < 0.3 else None
+        steps = []
+        renamed_mid = False
+
+        def expand(parent, kinds, special_parent):
+            nonlocal renamed_mid
+            for m in range(1, len(kinds)):
+                for keep in itertools.combinations(range(len(kinds)), m):
+                    kept = tuple(kinds[k] for k in keep)
+                    special = special_parent and kept in MATCH
+                    carrier_form = rng.choice(["index", "name"]) if m >= 2 else None
+                    for form in ("index", "name"):
+                        order = list(keep)
+                        # the other order: not for a plain result that is projected further (its axis order is not pinned)
+                        if m == 2 and rng.random() < 0.4 and (special or form != carrier_form):
+                            order.reverse()
+                        sel = [{"pos": k, "by": form} for k in order]
+                        if form == "name" and m == 2 and rng.random() < 0.3:
+                            sel[rng.randrange(2)]["by"] = "index"
+                        st = {"parent": parent, "sel": sel, "rename": None}
+                        steps.append(st)
+                        if form == carrier_form:
+                            if rng.random() < 0.35:
+                                st["rename"] = pick_names(rng, [DEFAULT_NAMES[root][k] for k in keep] if parent == 0 else ["r", "phi"], m)
+                                renamed_mid = True
+                            expand(len(steps), kept, special)
+        expand(0, SEM[root], True)
+        tags = ["kind:chain", "class:" + root, "names:" + mode, "build:" + build] + (["chain:renamed_between"] if renamed_mid else [])
+        return {"kind": "chain", "class": root, "dim": dim, "axes": axes, "points": pts, "weights": ws, "nan_row": False,
+                "build": build, "names0": names0, "names1": names1, "steps": steps, "tags": tags}
+
+    def run_chain(self, case):
+        from physt import special_histograms as sp
+        klass = getattr(sp, case["class"])
+        edges = [np.array(e) for e in case["axes"]]
+        P = np.array(case["points"], dtype=float)
+        ws = case["weights"]
+        log, out = [], {"dyn_tags": []}
+
+        def snap(h):
+            s = implnd.snapn(h)
+            return {k: s[k] for k in ("bins", "shape", "freq", "err2", "missed", "names", "_class")}
+
+        def find(h, pt):
+            try:
+                i = h.find_bin(pt)
+                return None if i is None else ([int(j) for j in i] if np.ndim(i) else int(i))
+            except Exception as ex:
+                return "ERROR"
+        try:
+            if case["build"] == "facade":
+                root = self.facade(sp, case, P, edges)
+            else:
+                kw = {"axis_names": list(case["names0"])} if case["names0"] else {}
+                root = klass([e.copy() for e in edges], **kw)
+                root.fill_n(P, weights=None if ws is None else np.array(ws, dtype=float))
+            if case["names1"]:
+                root.axis_names = tuple(case["names1"])
+        except Exception as ex:
+            log.append(f"root: {type(ex).__name__}: {ex}"[:200])
+            return {"outs": dict(out, root=None, steps=[]), "log": log}
+        out["root"] = snap(root)
+        nodes, res = [root], []
+        for st in case["steps"]:
+            parent = nodes[st["parent"]]
+            if parent is None:
+                nodes.append(None); res.append(None)
+                continue
+            sel = None
+            try:
+                sel = [s["pos"] if s["by"] == "index" else parent.axis_names[s["pos"]] for s in st["sel"]]
+                p = parent.projection(*sel)
+            except Exception as ex:
+                log.append(f"projection{sel}: {type(ex).__name__}: {ex}"[:200])
+                nodes.append(None); res.append({"_class": "ERROR", "sel": repr(sel), "exc": f"{type(ex).__name__}: {ex}"[:160]})
+                continue
+            o = snap(p)
+            o["sel"] = repr(sel)
+            o["radius"] = None
+            if type(p).__name__ in SRC_DIM:
+                try:
+                    o["radius"] = nrs(float(p.radius)) if hasattr(p, "radius") else None
+                except Exception as ex:
+                    log.append(f"radius: {type(ex).__name__}: {ex}"[:160])
+                for d in (2, 3):
+                    if d <= P.shape[1]:
+                        o[f"find{d}"] = [find(p, pt[:d]) for pt in P[:8]]
+            if st["rename"]:
+                try:
+                    p.axis_names = tuple(st["rename"])
+                    o["renamed"] = [str(x) for x in p.axis_names]
+                except Exception as ex:
+                    log.append(f"rename: {type(ex).__name__}: {ex}"[:160])
+            nodes.append(p); res.append(o)
+        out["steps"] = res
+        out["nonempty_cells"] = sum(1 for x in out["root"]["freq"] if Fraction(x) != 0)
+        return {"outs": out, "log": log}
+
+    def oracle_chain(self, case, io):
+        o = io["outs"]
+        klass = case["class"]
+        sem = SEM[klass]
+        P = case["points"]
+        ws = case["weights"] if case["weights"] is not None else [1] * len(P)
+        named = case["names1"] or case["names0"]
+        label = klass + (f" with axis names {named}" if named else "")
+        R = o["root"]
+        if R is None:
+            return [f"chain_refused: building the {label} raised: " + "; ".join(io["log"][:1])]
+        fails = []
+        if R["_class"] != klass:
+            fails.append(f"facade_class: the {label} is a {R['_class']}")
+        E = [edges_of(ax) for ax in pairs_of(R)]
+        if E != case["axes"]:
+            return fails + [f"edges_given: the {label} has edges {E}, the edges passed were {case['axes']}"[:400]]
+        # the contents of the histogram itself: every point where its true coordinates lie
+        nbs = [len(e) - 1 for e in E]
+        true = [py_transform(klass, p) for p in P]
+        fails += check_counts(klass, R, nbs, expected_bounds(E, true, ws), sum(Fraction(w) for w in ws))
+        if list(R["shape"]) != nbs:
+            return fails[:6]
+        F = np.array([Fraction(x) for x in R["freq"]], dtype=object).reshape(nbs)
+        F2 = np.array([Fraction(x) for x in R["err2"]], dtype=object).reshape(nbs)
+
+        def marginal(A, order):
+            M = np.asarray(A.sum(axis=tuple(a for a in range(len(nbs)) if a not in order)), dtype=object)
+            if len(order) > 1:
+                M = np.transpose(M, [sorted(order).index(a) for a in order])
+            return [Fraction(x) for x in M.ravel()]
+        info = [{"axes": list(range(len(sem))), "special": True, "path": label}]
+        for st, S in zip(case["steps"], o["steps"]):
+            par = info[st["parent"]]
+            req = [par["axes"][s["pos"]] for s in st["sel"]]                            # axes of the first histogram, as requested
+            canon = [par["axes"][k] for k in sorted(s["pos"] for s in st["sel"])]       # ... in the order of the axes
+            kept = tuple(sem[a] for a in canon)
+            special = par["special"] and kept in MATCH
+            if special:
+                want = {MATCH[kept][0]} | ({PLAIN[1]} if kept == ("phi",) and klass in PHI_OPTIONAL else set())
+            else:
+                want = {PLAIN[len(kept)]}
+            path = par["path"] + f".projection{'ERROR' if S is None else S['sel']}".replace("[", "(").replace("]", ")")
+            info.append({"axes": canon, "special": special,
+                         "path": path + (f" [axes renamed {st['rename']}]" if st["rename"] else "")})
+            if S is None:
+                continue
+            if S["_class"] == "ERROR":
+                fails.append(f"projection_refused: {path} raised {S['exc']}")
+                continue
+            if S["_class"] not in want:
+                fails.append(f"projection_class: {path} keeps the coordinates {list(kept)} and is a {S['_class']}, expected {' or '.join(sorted(want))}")
+            orders = [canon] + ([req] if req != canon and S["_class"] not in SRC_DIM else [])
+            if not any(S["bins"] == [R["bins"][a] for a in order] for order in orders):
+                fails.append(f"projection_bins: {path} does not have the bins of the axes {canon} of the {klass}")
+            elif not any(S["bins"] == [R["bins"][a] for a in order] and [Fraction(x) for x in S["freq"]] == marginal(F, order)
+                         and [Fraction(x) for x in S["err2"]] == marginal(F2, order) for order in orders):
+                fails.append(f"projection_content: {path} has contents {S['freq']} (errors2 {S['err2']}), the marginal over the other axes "
+                             f"is {[str(x) for x in marginal(F, canon)]} ({[str(x) for x in marginal(F2, canon)]})"[:500])
+            if S["_class"] == "CylindricalSurfaceHistogram" and klass == "CylindricalHistogram" and st["parent"] == 0:
+                if S["radius"] is None or float(Fraction(S["radius"])) != E[0][-1]:
+                    fails.append(f"surface_radius: {path} has radius {S['radius']}, the outer rho edge is {E[0][-1]}")
+            # being of that type, the projection bins Cartesian points by the kept coordinates
+            if kept in MATCH and S["_class"] == MATCH[kept][0] and par["special"]:
+                d = MATCH[kept][1]
+                Ek = [E[a] for a in canon]
+                nk = [len(e) - 1 for e in Ek]
+                for pt, got in zip(P, S.get(f"find{d}") or []):
+                    coords = [sem_coord(kd, pt) for kd in kept]
+                    cands = {slot(c, nk) for c in itertools.product(*[axis_candidates(v, e) for v, e in zip(coords, Ek)])}
+                    if got == "ERROR":
+                        where = "ERROR"
+                    elif len(nk) == 1:
+                        where = None if got is None else ("under" if got < 0 else ("over" if got >= nk[0] else (got,)))
+                    else:
+                        where = "missed" if got is None else tuple(got)
+                    if where not in cands:
+                        fails.append(f"wrong_bin: {path} (a {S['_class']}): find_bin of the point {pt[:d]} with {list(kept)} = {coords} gives {got}, "
+                                     f"it belongs to {sorted(map(str, cands))}")
+                        break
+        return fails[:6]
+
+
     # ------------------------------------------------------------------ model: base ND histogram on the transformed coordinates
     @staticmethod
     def model_axes(case, io):
@@ -1137,6 +1394,8 @@ class C15:
             return len(case["calls"]) >= 1 and o["prefilled"]
         if kind == "radius":
             return o["nonempty"]
+        if kind == "chain":
+            return o["root"] is not None and o.get("nonempty_cells", 0) >= 2
         if kind == "facade" and o["facade"] is None:
             return False
         key = "rets_find_t" if kind == "special" else "rets_find"
@@ -1154,6 +1413,26 @@ class C15:
 
     def shrink_candidates(self, case):
         kind = case.get("kind", "special")
+        if kind == "chain":
+            # drop a projection nothing else is taken from; forget a renaming
+            for j in range(len(case["steps"])):
+                if len(case["steps"]) > 1 and not any(st["parent"] == j + 1 for st in case["steps"]):
+                    c = copy.deepcopy(case)
+                    del c["steps"][j]
+                    for st in c["steps"]:
+                        if st["parent"] > j + 1:
+                            st["parent"] -= 1
+                    yield c
+            for j, st in enumerate(case["steps"]):
+                if st["rename"]:
+                    c = copy.deepcopy(case)
+                    c["steps"][j]["rename"] = None
+                    yield c
+            for key in ("names1", "names0"):
+                if case[key]:
+                    c = copy.deepcopy(case)
+                    c[key] = None
+                    yield c
         if kind == "baddims":
             for j in range(len(case["calls"])):
                 if len(case["calls"]) <= 1:
